@@ -198,8 +198,14 @@ def check(case, ctx):
         if op.status == "timeout":
             continue
         info = {}
+        at_row = AT
         if name == "eigenvector_centrality_und":
             ev = np.linalg.eigvalsh(np.asarray(W, dtype=float))
+            # conditioning of an eigenvector: round-off mixes in neighbouring eigenvectors in proportion eps * ||A|| / gap; with two nearly
+            # (not exactly) equally dominant components the entries that should be 0 come out as ~1e-10 under some numberings
+            gap = float(ev[-1] - ev[-2]) if len(ev) >= 2 else 0.0
+            if gap > 0:
+                at_row = max(AT, 256 * np.finfo(float).eps * float(np.max(np.abs(ev))) / gap)
             info["lambda_max_multiplicity"] = int(np.sum(ev > ev.max() - 1e-9 * min(1.0, float(np.max(np.abs(ev))) or 1.0)))
         if o0.ok != op.ok:
             a = "returned" if o0.ok else "raised %s" % o0.exc_name()
@@ -238,7 +244,7 @@ def check(case, ctx):
                 if c in ("v", "m", "3") and (np.ndim(a) == 0 or np.shape(a)[0] != n):
                     d = compare.deep_equal(a, b, RT, AT)
                 else:
-                    d = compare.deep_equal(_reindex(a, c, p, inv), np.asarray(b), RT, AT, path="output%d" % k)
+                    d = compare.deep_equal(_reindex(a, c, p, inv), np.asarray(b), RT, at_row, path="output%d" % k)
             if d:
                 if ambiguous:
                     break
@@ -270,7 +276,22 @@ def graph(draw, kind, nmax):
         A = gen.path_adj(n) if sub == "path" else gen.ring_adj(n) if sub == "ring" else draw(gen.tree_chords_adj(n, max_chords=1))
         A = gen.apply_perm(A, draw(gen.perm(n)))
         return A.astype(float), "long-" + sub
-    fam = draw(st.sampled_from(["er", "er", "structured", "structured", "tree", "tree"]))
+    fam = draw(st.sampled_from(["er", "er", "structured", "structured", "tree", "tree", "core+pendants"]))
+    if fam == "core+pendants":
+        # a complete (reciprocally connected) core with a few pendant nodes: in+out degrees inside the core reach and exceed N
+        c = draw(st.integers(3, max(3, nmax - 2)))
+        A = gen.block_diag(gen.complete_adj(c), np.zeros((draw(st.integers(1, max(1, min(3, nmax - c)))),) * 2, dtype=bool)).copy()
+        for v in range(c, len(A)):
+            u = draw(st.integers(0, c - 1))
+            A[u, v] = True
+            if not directed or draw(st.booleans()):
+                A[v, u] = True
+        n = len(A)
+        A = gen.apply_perm(A, draw(gen.perm(n)))
+        if kind in ("bu", "bd", "bu-conn"):
+            return A.astype(float), fam
+        W = draw(gen.weights_for(A, "signed" if kind == "sign" else "dyadic", directed and not np.array_equal(A, A.T)))
+        return W, fam
     if fam == "structured":
         A, sub = draw(gen.structured_adj(3, nmax))
         fam = sub
